@@ -49,6 +49,13 @@ CLAIMED["C19"] = dict(
          "suffixes, keyblob/encrypt/keywrap statements, contents of source files.",
     ref="DESIGN.md section 3 C19")
 
+CLAIMED["C04"] = dict(
+    technique="symbolic execution of the real SB2.1 builder/parser (symx) over ideal-cipher/UF crypto stubs + z3 QF_BV; "
+              "oracle = independent ROM decoder written over the exported symbolic bytes",
+    note="Out of the claim: real AES/HMAC/RSA/SHA (stubbed), SB2.0 unsigned images, OTFAD key-blob commands, "
+         "image_blocks/first_boot_tag_block with the SHA flag, counter wrap (refused; C09).",
+    ref="DESIGN.md section 3 C04")
+
 NOT_APPLICABLE = {
     "C18": "quantifies over OS-level crash points of a pickle file and over process schedules around a FileLock; the "
            "deciding code is pickle (C) / the file system / the scheduler - no SPSDK arithmetic or layout to encode; "
